@@ -70,7 +70,22 @@ def r_constructors(rule, root=None):
     # VM side
     for name, w in (("vars", "{&self.0.vars}"), ("output_count", "{self.0.output_count()}")):
         fn = A.find_fn(VM, name, self_ty="GenericVmTape", trait="Tape", root=root)
-        if txt(fn["body"]) == w:
+        from . import effects as E_
+
+        try:
+            inl = A.inline_helpers(fn)
+            tl_ = A.stmt_expr(inl["stmts"][-1]) if inl.get("stmts") else None
+            cn = E_.canon(tl_, E_.let_env(inl["stmts"][:-1])) if tl_ is not None else ""
+        except Exception:  # noqa: BLE001
+            cn = ""
+        # the public accessor `data()` names the wrapped data itself
+        try:
+            dfn = A.find_fn(VM, "data", self_ty="GenericVmTape", root=root, inherent=True)
+            if str(txt(dfn["body"])) in ("{&self.0}", "{self.0.as_ref()}", "{&*self.0}"):
+                cn = cn.replace("self.data()", "self.0")
+        except Exception:  # noqa: BLE001
+            pass
+        if txt(fn["body"]) == w or cn == w.strip("{}").lstrip("&"):
             rule.ok("GenericVmTape::%s reads the shared data" % name)
         else:
             rule.bad("deleg|vmtape|%s" % name, "GenericVmTape::%s must be %s" % (name, w), A.where(fn))
